@@ -205,3 +205,55 @@ func VfC14_Succs() {
 	after := t.Succs()
 	vfAssert("C14.succs.after-retarget", vfAnd(len(after) == len(before), after[0] == b3))
 }
+
+// VfC14_PrintTwice: printing twice in a row yields identical text also when
+// something printed early refers to a local of a function printed later: a
+// global initialised with the address of an unnamed block (the block gets its
+// number when the function is numbered), a function whose body takes the
+// block address of a later, not yet printed function.  The first print is an
+// observer like any other: the text must not depend on it.
+//
+//vf:unwind 300
+func VfC14_PrintTwice() {
+	m := NewModule()
+	f := m.NewFunc(hLetter("f"), types.Void, NewParam("", types.I32))
+	entry := f.NewBlock("")
+	target := f.NewBlock("")
+	entry.NewBr(target)
+	target.NewRet(nil)
+	where := vfChoice("where", 3)
+	switch where {
+	case 0: // global initialiser (printed before any function)
+		m.NewGlobalDef(hLetter("g"), constant.NewBlockAddress(f, target))
+	case 1: // operand in an earlier function
+		g := NewFunc("early", types.Void)
+		gb := g.NewBlock("")
+		gb.NewIndirectBr(constant.NewBlockAddress(f, target), target)
+		m.Funcs = append([]*Func{g}, m.Funcs...)
+		g.Parent = m
+	default: // alias-free control: no early reference
+	}
+	vfReach("C14.print-twice")
+	first := m.String()
+	second := m.String()
+	vfObserveStr("first", first)
+	vfAssert("C14.print-twice.same-text", first == second)
+	// an identically built, never printed copy prints like the second print
+	m2 := NewModule()
+	f2 := m2.NewFunc(f.Name(), types.Void, NewParam("", types.I32))
+	e2 := f2.NewBlock("")
+	t2 := f2.NewBlock("")
+	e2.NewBr(t2)
+	t2.NewRet(nil)
+	switch where {
+	case 0:
+		m2.NewGlobalDef(m.Globals[0].Name(), constant.NewBlockAddress(f2, t2))
+	case 1:
+		g := NewFunc("early", types.Void)
+		gb := g.NewBlock("")
+		gb.NewIndirectBr(constant.NewBlockAddress(f2, t2), t2)
+		m2.Funcs = append([]*Func{g}, m2.Funcs...)
+		g.Parent = m2
+	}
+	vfAssert("C14.print-twice.first-print-of-a-copy", m2.String() == second)
+}
